@@ -100,6 +100,17 @@ TraceCmp ==
             \cup (IF Sign(r) # rs THEN {"RpmCmp_disagrees_with_port"} ELSE {}))
   /\ UNCHANGED <<cid, ncases>>
 
+(* the version is split AFTER environment expansion (parse: expand, then defaults) *)
+TraceExpandSplit ==
+  /\ IsEv("expandsplit")
+  /\ LET e == Trace[l]
+         c == [version |-> ExpandStr(e.version, e.env), schema |-> "", prerelease |-> ExpandStr(e.prerelease, e.env),
+               metadata |-> e.metadata]     \* version_metadata is not among the documented expandable fields: used as written
+         v == EffVersion(c)
+     IN Rec(IF e.err # "" THEN {"C14.valid_document_parses"} ELSE
+            Cl(e.obs.version = v.version /\ e.obs.pre = v.pre /\ e.obs.meta = v.meta, "C14.expanded_version_is_split"), {}, {})
+  /\ UNCHANGED <<cid, ncases>>
+
 (* ---- C16 ------------------------------------------------------------------ *)
 TraceProbe ==
   /\ IsEv("probe")
@@ -151,7 +162,7 @@ TraceEof ==
   /\ TLCSet(1, l)
   /\ UNCHANGED <<cid, viol, drift, merr, ncases>>
 
-TraceNext == TraceCase \/ TraceEnd \/ TraceGet \/ TraceGetContents \/ TraceValidate \/ TraceVer \/ TraceCmp
+TraceNext == TraceCase \/ TraceEnd \/ TraceExpandSplit \/ TraceGet \/ TraceGetContents \/ TraceValidate \/ TraceVer \/ TraceCmp
              \/ TraceProbe \/ TraceExpand \/ TracePass \/ TraceEof
 TraceSpec == TraceInit /\ [][TraceNext]_vars
 HighWater == TLCSet(2, l)
